@@ -462,6 +462,8 @@ def check_cluster(sc, obs):
                 return (i, "GETENTRY %s returned key %s, written %s" % (op[2], ob[2][:40], kx[:40]))
             if cur[2] is not None and bytes.fromhex(ob[3]) != cur[2]:
                 return (i, "GETENTRY %s returned %r, written %r" % (op[2], bytes.fromhex(ob[3])[:60], cur[2][:60]))
+        elif name == "sleep":
+            pass
         elif name == "keys":
             if ob[1] != "nil":
                 return (i, "a full iteration through %s failed: %s" % (op[1], ob[1]))
@@ -669,6 +671,30 @@ def corpus():
     return out
 
 
+def gen_async_rejects(rng):
+    """asynchronous replication: a Put the owner rejects (key of 256 bytes or more, entry larger than a table) must not reach
+    the backup owners either - there the raw entry is stored without the checks of the owner's write path"""
+    opts = {"members": 2, "replicas": 2, "partitions": 7, "table": 1024, "async": True}
+    ops = []
+    ks = []
+    for n in (256, 257, 300, 1000):
+        for path in ("own", "cc", "non"):
+            k = bytes([65 + (n + len(ks)) % 20]) * n
+            ks.append(k)
+            ops.append(["put", path, k.hex(), "string", weird_bytes(rng, 5).hex()])
+    big = b"big1"
+    ops.append(["put", "own", big.hex(), "bytes", weird_bytes(rng, 1100).hex()])
+    ks.append(big)
+    ok = b"fits"
+    ops.append(["put", "own", ok.hex(), "string", weird_bytes(rng, 9).hex()])
+    ops.append(["sleep", 400])
+    for k in ks:
+        ops.append(["get", rng.choice(PATHS), k.hex(), "string"])
+        ops.append(["copies", k.hex()])
+    ops.append(["get", "cc", ok.hex(), "string"])
+    return {"kind": "cluster", "opts": opts, "dmap": "d", "ops": ops, "_cfg": "async-rejects", "_nocoq": True}
+
+
 def scenarios(res):
     quick = res.tier == "quick"
     scs = corpus()
@@ -678,6 +704,8 @@ def scenarios(res):
         for ci, cfg in enumerate(CONFIGS):
             scs.append(gen_values_cluster(vlib.rng_for(res.seed, PID, "cl", rd, ci), cfg))
     scs.append(gen_long_default_table(vlib.rng_for(res.seed, PID, "long")))
+    for i in range(1 if quick else 4):
+        scs.append(gen_async_rejects(vlib.rng_for(res.seed, PID, "asyncrej", i)))
     scs.append(d26_probe())
     for i, s in enumerate(scs):
         s["id"] = i
